@@ -1,2 +1,18 @@
-/- stub: line-protocol driver for C16 (to be written) -/
-def main : IO Unit := pure ()
+/- Driver for C16: prints the exception shapes computed from the generated grammar table and the builder model. -/
+import UtapModel.Model.C16
+open UtapModel.C16
+
+partial def loop (h : IO.FS.Stream) (out : IO.FS.Stream) : IO Unit := do
+  let line ← h.getLine
+  if line.isEmpty then return ()
+  let w := line.trimAscii.toString
+  if w == "exceptions" then
+    for s in exceptionShapes do out.putStrLn s!"SHAPE {s}"
+    out.putStrLn s!"NONTERMINALS {labelNonterminals.length}"
+  else if w == "effects" then
+    for p in ["expr_forall_begin", "expr_forall_end", "proc_edge_begin", "proc_edge_end", "block_begin", "expr_binary"] do
+      out.putStrLn s!"{p} {frameEffect p}"
+  else out.putStrLn "bad-op"
+  loop h out
+
+def main : IO Unit := do loop (← IO.getStdin) (← IO.getStdout)
